@@ -15,8 +15,9 @@ Environment knobs (all optional):
   C19_REPO         sea-query checkout to build against (default /repo)
   C19_TARGET_DIR   CARGO_TARGET_DIR (default /verif/harness/target/gen19-target)
   C19_NCRATES / C19_NTYPES   override the tier's crate count / types per crate
-  C19_PINNED=0     leave out the pinned probe types (see PINNED below)
+  C19_PINNED=0     leave out the pinned probe types (see Generator.pinned_module)
   C19_KEEP_BINS=1  keep the generated crates' binaries in the target dir
+  C19_FINDINGS     known-findings file (default /verif/known_findings.json)
 
 Exit code: 0 held, 1 violation (VIOLATION line printed), 2 inconclusive.
 """
@@ -37,7 +38,7 @@ GEN_DIR = os.path.join(HARNESS_TARGET, "gen19")
 TARGET_DIR = os.environ.get("C19_TARGET_DIR") or os.path.join(HARNESS_TARGET, "gen19-target")
 REPO = os.path.abspath(os.environ.get("C19_REPO") or "/repo")
 REPLAYS = os.path.join(ROOT, "replays")
-FINDINGS = os.path.join(ROOT, "known_findings.json")
+FINDINGS = os.environ.get("C19_FINDINGS") or os.path.join(ROOT, "known_findings.json")
 PROP = "C19"
 VARIANT = "gen19"
 MIN_NONTRIVIAL = 20
@@ -589,7 +590,7 @@ class Generator:
                     rty = "&'static str" if static else r.choice(["&'static str", "&str", "::std::string::String"])
                     t.methods.append((mname, rty, s))
                     attr = (r.choice(["method_eq", "iden_method"]), mname, s, sc)
-                elif depth < 2 and flat_children < 2 and len(self.types) < 10 ** 9:
+                elif depth < 2 and flat_children < 2:
                     flat_children += 1
                     inner_kind = weighted(r, [("enum", 7), ("unit", 3)])
                     inner_static = static or r.random() < 0.3
@@ -966,7 +967,8 @@ def parse_output(text):
 
 
 class Checker:
-    def __init__(self, seed, tier, verbose=False):
+    def __init__(self, seed, tier, verbose=False, only_type=None):
+        self.only_type = only_type
         self.seed = seed
         self.tier = tier
         self.verbose = verbose
@@ -1021,6 +1023,8 @@ class Checker:
             return
         self.count("crates_checked")
         for t in g.types:
+            if self.only_type is not None and t.tid != self.only_type:
+                continue
             self.count("types")
             self.count(f"types_kind_{t.kind}")
             self.count(f"types_path_{t.path_kind}")
@@ -1153,9 +1157,11 @@ def main():
     if replay:
         crate_ids = [int(replay["crate"])]
     with_pinned = os.environ.get("C19_PINNED", "1") != "0"
+    if replay:
+        with_pinned = bool(replay.get("pinned", with_pinned))
     tag = "-replay" if replay else ""
 
-    chk = Checker(seed, tier, verbose=bool(replay))
+    chk = Checker(seed, tier, verbose=bool(replay), only_type=replay.get("type_id") if replay else None)
     status = 0
     why = None
     pkgs = []
@@ -1255,7 +1261,7 @@ def main():
         path = os.path.join(REPLAYS, f"{PROP}-{VARIANT}-{seed}-{d['crate']}-{d['type_id']}-{i}.json")
         body = {"property": PROP, "variant": VARIANT, "tier": tier, "seed": seed, "crate": d["crate"],
                 "ncrates": ncrates, "ntypes": ntypes, "type_id": d["type_id"], "type_source": d["type_source"],
-                "repo": REPO, "violation": v}
+                "pinned": with_pinned, "repo": REPO, "violation": v}
         with open(path, "w") as f:
             json.dump(body, f, indent=1, ensure_ascii=False)
         say(f"VIOLATION property={PROP} replay={path}")
@@ -1268,6 +1274,8 @@ def main():
         status = 2
         why = why or "harness errors"
     distinct = len(chk.distinct)
+    if replay and status == 0 and not new_v:
+        say(f"replay: type {replay.get('type_id')} of crate {replay.get('crate')} (seed {seed}) matches the model on this tree")
     if status == 0 and not new_v and not replay and distinct < MIN_NONTRIVIAL:
         status = 2
         why = f"only {distinct} distinct non-trivial cases compared (minimum {MIN_NONTRIVIAL})"
